@@ -249,7 +249,7 @@ def run(R, ctx):
     R.explanation = (
         "Guard-before-act rules on typed THIR: the scope query precedes every rewrite in the scope-aware processors (sibling callbacks "
         "agree), the matchers query the scope for the name they match, kept arguments are exactly those with side effects and stay in "
-        "order. Decides the wiring of 'what is named and not shadowed'; execution equivalence is not decided."
+        "order. Decides the wiring of 'what is named and not shadowed'; execution equivalence is not decided. Decision / transfer functions among these are decided by finite-domain evaluation of their typed tree (sa/peval.py): every point of a small abstract domain is evaluated and compared with the reference; nothing is sampled and no program input exists."
     )
     R.assumptions += ["Evaluator::has_side_effects is trusted as an analysis here (its table is checked under C08)"]
     c05.shadow_rule(R, ctx, "C17.shadow", (VI, RFCP), "injection/removal")
